@@ -12,7 +12,9 @@ import (
 	"strings"
 )
 
-func isSliceTy(ty string) bool { return ty == "[]uint" || ty == "[]int" || ty == "[][]uint" }
+func isSliceTy(ty string) bool {
+	return ty == "[]uint" || ty == "[]int" || ty == "[][]uint" || ty == "[]ff.Element"
+}
 
 func elemTy(ty string) string { return strings.TrimPrefix(ty, "[]") }
 
@@ -33,6 +35,10 @@ func zeroOf(ty string) string {
 		return "([] : List (List Nat))"
 	case "error":
 		return "none"
+	case "ff.Element":
+		return "(none : Option Nat)"
+	case "[]ff.Element":
+		return "([] : List (Option Nat))"
 	}
 	return ""
 }
@@ -176,7 +182,22 @@ func (t *tr) wrapGuards(g []string, body string) string {
 	if len(g) == 0 {
 		return body
 	}
-	return "(if " + strings.Join(g, " ∧ ") + " then " + body + " else " + t.panicVal() + ")"
+	// runs of guards become one conditional; a bound call of a partial function becomes a match
+	for i := len(g) - 1; i >= 0; {
+		if strings.HasPrefix(g[i], "BIND:") {
+			parts := strings.SplitN(g[i], ":", 3)
+			body = "(match " + parts[2] + " with | some " + parts[1] + " => " + body + " | none => " + t.panicVal() + ")"
+			i--
+			continue
+		}
+		j := i
+		for j >= 0 && !strings.HasPrefix(g[j], "BIND:") {
+			j--
+		}
+		body = "(if " + strings.Join(g[j+1:i+1], " ∧ ") + " then " + body + " else " + t.panicVal() + ")"
+		i = j
+	}
+	return body
 }
 
 // position of an index expression inside the slice `xs` (a Lean term), registering the bounds guard
@@ -471,6 +492,17 @@ func aliasCheck(recv string, params map[string]bool, stmts []ast.Stmt) string {
 		_, is := bases[m]
 		return m, is
 	}
+	okAppend := map[*ast.CallExpr]bool{}
+	for _, s := range stmts {
+		ast.Inspect(s, func(n ast.Node) bool {
+			if a, ok := n.(*ast.AssignStmt); ok && len(a.Lhs) == 1 && len(a.Rhs) == 1 && a.Tok == token.ASSIGN {
+				if c, ok := a.Rhs[0].(*ast.CallExpr); ok && src(c.Fun) == "append" && len(c.Args) > 0 && src(c.Args[0]) == src(a.Lhs[0]) {
+					okAppend[c] = true // `b = append(b, …)`: the old value of b is dead
+				}
+			}
+			return true
+		})
+	}
 	bad := ""
 	for m, b := range bases {
 		if m == "?" {
@@ -524,7 +556,7 @@ func aliasCheck(recv string, params map[string]bool, stmts []ast.Stmt) string {
 					}
 				}
 			case *ast.CallExpr:
-				if f := src(a.Fun); f != "len" {
+				if f := src(a.Fun); f != "len" && !okAppend[a] {
 					for _, x := range a.Args {
 						if m, ok := inB(x); ok {
 							bad = "slice " + m + " is passed to " + f + " and also assigned through an index"
@@ -538,4 +570,140 @@ func aliasCheck(recv string, params map[string]bool, stmts []ast.Stmt) string {
 		})
 	}
 	return bad
+}
+
+// ---------------------------------------------------------------------------------------------
+// field elements as abstract values; calls of translated methods on the own receiver
+
+const elemGo = "ff.Element"
+
+// element methods that return a bool (all other element methods return an element)
+var elemBoolMethods = map[string]bool{"IsZero": true, "IsOne": true, "IsNonzero": true}
+
+// methodInfo describes a translated method for callers in the same package
+type methodInfo struct {
+	lean     string
+	extra    []string          // extra parameters (receiver fields, method_M functions), in order
+	extraTy  map[string]string // their Lean types
+	extraGo  map[string]string // Go types of receiver-field parameters
+	nArgs    int
+	partial  bool
+	retGo    string   // Go result type ("" for a mutator)
+	assigned []string // receiver fields returned by a mutator (void method or `return f`)
+	assTy    []string // their Go types
+}
+
+var methodReg = map[string]*methodInfo{}
+
+func (t *tr) recvTypeName() string {
+	return recvType(t.fn.decl)
+}
+
+// f.M(…) with f the receiver and M a translated method of the same type
+func (t *tr) ownMethod(c *ast.CallExpr) (*methodInfo, bool) {
+	sel, ok := c.Fun.(*ast.SelectorExpr)
+	if !ok || t.recvName == "" {
+		return nil, false
+	}
+	id, ok := sel.X.(*ast.Ident)
+	if !ok || id.Name != t.recvName {
+		return nil, false
+	}
+	mi, ok := methodReg[t.fn.pkg.name+"."+t.recvTypeName()+"."+sel.Sel.Name]
+	return mi, ok
+}
+
+// the Lean application of a translated method to the current state of the receiver
+func (t *tr) ownCall(mi *methodInfo, c *ast.CallExpr) string {
+	var args []string
+	for _, e := range mi.extra {
+		if !t.extraSet[e] {
+			t.extraSet[e] = true
+			t.extra = append(t.extra, e)
+			t.extraTy[e] = mi.extraTy[e]
+			if g, ok := mi.extraGo[e]; ok {
+				t.types[e] = g
+			}
+		}
+		args = append(args, e)
+	}
+	for _, a := range c.Args {
+		args = append(args, t.argExpr(a))
+	}
+	return "(" + mi.lean + " " + strings.Join(args, " ") + ")"
+}
+
+// value of a call of a partial function inside an expression: bound before the statement
+func (t *tr) bindPartial(e string) string {
+	t.needPartial = true
+	*t.rangeN++
+	name := fmt.Sprintf("call%d", *t.rangeN)
+	t.guards = append(t.guards, "BIND:"+name+":"+e)
+	return name
+}
+
+// E.M(args) with E an element-valued expression (Option Nat): the method is the uninterpreted function
+// method_M of the element's value; a nil element is a nil dereference (panic)
+func (t *tr) elemMethod(c *ast.CallExpr) (val string, isBool bool, ok bool) {
+	sel, isSel := c.Fun.(*ast.SelectorExpr)
+	if !isSel || t.typeOf(sel.X) != elemGo {
+		return "", false, false
+	}
+	recv := t.argExpr(sel.X)
+	t.addGuard("(Option.isSome " + recv + " = true)")
+	args := []string{"(Option.getD " + recv + " 0)"}
+	tys := []string{"Nat"}
+	for _, a := range c.Args {
+		if t.typeOf(a) == elemGo {
+			x := t.argExpr(a)
+			t.addGuard("(Option.isSome " + x + " = true)")
+			args = append(args, "(Option.getD "+x+" 0)")
+			tys = append(tys, "Nat")
+		} else if t.typeOf(a) == "int" {
+			args = append(args, t.argExpr(a))
+			tys = append(tys, "Int")
+		} else {
+			args = append(args, t.argExpr(a))
+			tys = append(tys, "Nat")
+		}
+	}
+	name := "method_" + sel.Sel.Name
+	isBool = elemBoolMethods[sel.Sel.Name]
+	res := "Nat"
+	if isBool {
+		res = "Bool"
+	}
+	ty := strings.Join(append(tys, res), " → ")
+	if !t.extraSet[name] {
+		t.extraSet[name] = true
+		t.extra = append(t.extra, name)
+		t.extraTy[name] = ty
+	} else if t.extraTy[name] != ty {
+		t.fail("method %s used at different types", name)
+	}
+	return "(" + name + " " + strings.Join(args, " ") + ")", isBool, true
+}
+
+// an expression whose evaluation may panic (used to respect the short-circuit evaluation of &&)
+func (t *tr) mayPanic(e ast.Expr) bool {
+	found := false
+	ast.Inspect(e, func(n ast.Node) bool {
+		switch v := n.(type) {
+		case *ast.IndexExpr:
+			if isSliceTy(t.typeOf(v.X)) {
+				found = true
+			}
+		case *ast.SliceExpr:
+			found = true
+		case *ast.CallExpr:
+			if sel, ok := v.Fun.(*ast.SelectorExpr); ok && t.typeOf(sel.X) == elemGo {
+				found = true
+			}
+			if mi, ok := t.ownMethod(v); ok && mi.partial {
+				found = true
+			}
+		}
+		return true
+	})
+	return found
 }
